@@ -244,7 +244,10 @@ class Executor:
             for c in self.path.pc:
                 self.solver.add(c)
             self.solver.add(extra)
-            return self.solver.check() != z3.unsat
+            try:
+                return self.solver.check() != z3.unsat
+            except z3.Z3Exception:
+                return True      # solver gave up: treat the branch as feasible (sound)
         finally:
             self.solver.pop()
 
@@ -491,7 +494,15 @@ class Executor:
         if any(rs.eq(d) for d in self.known_doubles):
             val = r      # the value of a double converts to itself
         else:
-            val = r if self.branch(small) else F64(r)     # fork: keeps the terms simple
+            if self.branch(small):
+                val = r
+            else:
+                val = F64(r)
+                # round-to-nearest facts: sign is kept, and in the normal range the result is
+                # within a factor 2 of the exact value
+                self.path.pc.append(z3.And(z3.Implies(r >= 0, val >= 0), z3.Implies(r <= 0, val <= 0),
+                                           z3.Implies(r >= 1, z3.And(2 * val >= r, val <= 2 * r)),
+                                           z3.Implies(r <= -1, z3.And(2 * val <= r, val >= 2 * r))))
         if isinstance(v, VDec):
             big = z3.RealVal(2 ** 1024)
             if self.branch(z3.Or(r >= big, r <= -big)):      # Decimal.__float__ overflows to +-inf
@@ -540,6 +551,14 @@ class Executor:
             raise OutOfSubset(f'int {op} int')
         # Decimal with Decimal/int
         ra, rb = as_real_term(a), as_real_term(b)
+        if ra is not None and rb is not None and (isinstance(a, VFrac) or isinstance(b, VFrac)):
+            if op in ('+', '-', '*'):
+                return VFrac({'+': ra + rb, '-': ra - rb, '*': ra * rb}[op])
+            if op == '/':
+                if self.branch(rb == 0):
+                    self.raise_py(ZeroDivisionError)
+                return VFrac(ra / rb)
+            raise OutOfSubset(f'Fraction {op}')
         if ra is not None and rb is not None:
             if op == '+':
                 self.note('A-DEC: Decimal + - * / results are exact (no rounding at precision 28)')
@@ -646,9 +665,11 @@ class Executor:
                 return VFloat(True, 0, 0, False)
             if binf:
                 if op == '%':
-                    # Python: finite % inf = a if same sign (or a == 0) else inf-signed b
-                    same = z3.Or(a.val == 0, a.neg == b.neg)
-                    if self.branch(same):
+                    # Python: finite % inf = a if same sign; a zero takes the sign of b;
+                    # otherwise the infinity b
+                    if self.branch(a.val == 0):
+                        return VFloat(False, 0, 0, b.neg)
+                    if self.branch(a.neg == b.neg):
                         return VFloat(False, 0, a.val, a.neg)
                     return VFloat(False, b.inf, 0)
                 same = z3.Or(a.val == 0, a.neg == b.neg)
@@ -662,7 +683,7 @@ class Executor:
         # overflow of finite arithmetic to +-inf is part of the uninterpreted result: the
         # result is described by three uninterpreted functions of the operands.
         of = z3.Function('fp_' + name + '_inf', z3.RealSort(), z3.RealSort(), z3.IntSort())
-        inf = of(a.val, b.val) if op in ('+', '-', '*', '/') else z3.IntVal(0)
+        inf = of(a.val, b.val) if op in ('+', '-', '*', '/', '//') else z3.IntVal(0)
         ng = z3.Function('fp_' + name + '_neg', z3.RealSort(), z3.RealSort(), z3.BoolSort())
         return VFloat(False, inf, r, ng(a.val, b.val))
 
@@ -766,12 +787,55 @@ class Executor:
                 self.eval(v.value, env)
         return VStr(self.fresh('fstr', z3.StringSort()))
 
+    pure = 0     # > 0 while evaluating specification expressions: merge instead of forking
+
+    def merge(self, c, a: Val, b: Val):
+        """If(c, a, b) for two values of the same simple kind, else None."""
+        if isinstance(a, VBool) and isinstance(b, VBool):
+            return VBool(z3.If(c, a.t, b.t))
+        if isinstance(a, VInt) and isinstance(b, VInt) and a.pycls is b.pycls:
+            return VInt(z3.If(c, a.t, b.t), a.pycls)
+        if isinstance(a, VStr) and isinstance(b, VStr):
+            return VStr(z3.If(c, a.t, b.t))
+        if type(a) is VDec and type(b) is VDec:
+            return VDec(z3.If(c, a.t, b.t), z3.If(c, a.neg, b.neg))
+        if type(a) is VFrac and type(b) is VFrac:
+            return VFrac(z3.If(c, a.t, b.t))
+        return None
+
     def e_IfExp(self, node, env):
-        if self.test(self.eval(node.test, env)):
+        tv = self.eval(node.test, env)
+        if self.pure:
+            c = z3.simplify(self.truthy(tv))
+            if not (z3.is_true(c) or z3.is_false(c)):
+                saved = (list(self.path.pc), self.pos, list(self.prefix), list(self.worklist))
+                try:
+                    a = self.eval(node.body, env)
+                    b = self.eval(node.orelse, env)
+                    if self.pos == saved[1]:         # no fork happened while evaluating the arms
+                        m = self.merge(c, a, b)
+                        if m is not None:
+                            return m
+                except PyRaise:
+                    pass
+                self.path.pc, self.pos, self.prefix, self.worklist = saved[0], saved[1], saved[2], saved[3]
+        if self.test(tv):
             return self.eval(node.body, env)
         return self.eval(node.orelse, env)
 
     def e_BoolOp(self, node, env):
+        if self.pure:
+            # specification context: total, side-effect free operands -> z3 And / Or
+            parts = []
+            for e in node.values:
+                v = self.eval(e, env)
+                c = z3.simplify(self.truthy(v))
+                if isinstance(node.op, ast.And) and z3.is_false(c):
+                    return VBool(False)
+                if isinstance(node.op, ast.Or) and z3.is_true(c):
+                    return VBool(True)
+                parts.append(c)
+            return VBool(z3.And(parts) if isinstance(node.op, ast.And) else z3.Or(parts))
         last = None
         for k, e in enumerate(node.values):
             last = self.eval(e, env)
@@ -815,6 +879,10 @@ class Executor:
             c = self.compare(op, left, right)
             if len(node.ops) == 1:
                 return VBool(c)
+            if self.pure:
+                result = VBool(c if result is None else z3.And(result.t, c))
+                left = right
+                continue
             if not self.branch(c):
                 return VBool(False)
             result = VBool(True)
@@ -929,6 +997,8 @@ class Executor:
                 raise OutOfSubset('slice step')
             return self.slice(obj, lo, hi)
         idx = self.eval(node.slice, env)
+        if isinstance(idx, VSlice):
+            return self.slice(obj, idx.lo, idx.hi)
         return self.index(obj, idx)
 
     def norm_index(self, i, n):
@@ -1444,9 +1514,29 @@ class Executor:
                     self.prec_wide = saved
                 return
         h = self.hooks.get('with')
-        if h is None:
-            raise OutOfSubset('with statement without a manager contract')
-        return h(self, node, env)
+        if h is not None:
+            return h(self, node, env)
+        if len(node.items) != 1:
+            raise OutOfSubset('with statement with several managers')
+        if not isinstance(mgr, VObj):
+            raise OutOfSubset(f'with statement on {mgr!r}')
+        # Python semantics of `with`: __enter__; body; __exit__(exc info) on every exit; an
+        # exception propagates unless __exit__ returns a true value.
+        entered = self.call_method(mgr, '__enter__', [], {}, node)
+        if node.items[0].optional_vars is not None:
+            self.assign_target(node.items[0].optional_vars, entered, env)
+        try:
+            self.exec_block(node.body, env)
+        except PyRaise as r:
+            sup = self.call_method(mgr, '__exit__', [VNative(r.exc.pycls), r.exc, NONE], {}, node)
+            if self.test(sup):
+                return
+            raise
+        except (ReturnEx, BreakEx, ContinueEx):
+            self.call_method(mgr, '__exit__', [NONE, NONE, NONE], {}, node)
+            raise
+        else:
+            self.call_method(mgr, '__exit__', [NONE, NONE, NONE], {}, node)
 
     prec_wide = False
     known_doubles: list = []
@@ -1487,7 +1577,11 @@ class Executor:
 
     def spec_eval(self, expr: str, env: Env) -> Val:
         node = ast.parse(expr, mode='eval').body
-        return self.eval(node, env)
+        self.pure += 1
+        try:
+            return self.eval(node, env)
+        finally:
+            self.pure -= 1
 
     def run_loop(self, node, env, spec: LoopSpec, head, body_prefix):
         """Generic invariant-based loop cut.
@@ -1675,6 +1769,13 @@ class Executor:
 
 class DecimalLocalContext:
     """Marker class of the object returned by decimal.localcontext()."""
+
+
+class VSlice(Val):
+    pycls = slice
+
+    def __init__(self, lo, hi):
+        self.lo, self.hi = lo, hi
 
 
 class VRange(Val):
